@@ -31,6 +31,9 @@ class DictDB:
     def normalize_and_get_page(self, title, defaultns=0):
         return Page(self.data_dict.get(title.lower().replace(" ", "_"), ""))
 
+    def normalize_and_get_image_path(self, name):
+        return None
+
     def get_siteinfo(self):
         return self.siteinfo
 
